@@ -299,7 +299,10 @@ class DemoStorage(ConflictResolvingStorage):
         with self._lock:
             while 1:
                 oid = ZODB.utils.p64(self._next_oid)
-                if oid not in self._issued_oids:
+                # (_stored_oids: records stored under ids of the caller's
+                # choice by the transaction in progress)
+                if (oid not in self._issued_oids
+                        and oid not in self._stored_oids):
                     try:
                         load_current(self.changes, oid)
                     except ZODB.POSException.POSKeyError:
